@@ -258,9 +258,9 @@ basic_dyn_slot_lambda_f<T, S, N>::basic_dyn_slot_lambda_f(std::istream &in,
                     return v;
                   });
 
-  // Every slot must name a column of the matrix (tag() indexes the matrix
-  // with it).
-  if (slot_matrix_.cols() <= 1
+  // There must be at least one slot and every slot must name a column of the
+  // matrix (slot() / tag() index the tables with them).
+  if (slot_matrix_.cols() <= 1 || !slot_matrix_.rows()
       || std::any_of(slot_class_.begin(), slot_class_.end(),
                      [this](auto c) { return c >= slot_matrix_.cols(); }))
     throw exception::data_format(
